@@ -22,10 +22,13 @@ DECLINED = ["non-overlap, conservation and bucket hand-over arithmetic of the me
             "'at least that much usable stack'"]
 ASSUMPTIONS = ["malloc/free/mmap/munmap behave as specified"]
 RULES_DOC = dict(common.SHARED_DOC)
+RULES_DOC["X9"] = common.X9_DOC
 RULES_DOC["X7"] = common.X7_DOC
 RULES_DOC["X4"] = common.X4_DOC
 RULES_DOC["R5"] = "page release: when the pool is destroyed, every undo of the stack guard (protect_memory(.., FALSE)) covers exactly the region that is then released (same address and size as the ABTU_free_largepage that follows); the size recorded with a user-supplied stack is the size the caller passed, unrounded"
 RULES_DOC["R6"] = "every local memory pool is initialised against the global pool of its own kind (descriptor pools feed on the descriptor pool, stack pools on the stack pool); ABT_thread_create_many reaches a creation only with no attribute or with an attribute whose user stack was tested NULL (one user stack is never given to several ULTs)"
+RULES_DOC["R10"] = "= C11.R6: a caller that blocked (join of a tasklet from a ULT, ...) continues with the stream it was resumed on: the descriptor it frees afterwards goes to the lock-free local pool of the stream it is really running on"
+RULES_DOC["R9"] = "ABTI_mem_pool_take_bucket: the element count stored in the header of a bucket that is being carved block by block is the running counter, or a value the governing conditions have just found equal to it (a half-built bucket returned after a failed page allocation must not claim to be full)"
 RULES_DOC["R8"] = "ABTI_mem_register_stack / ABTI_mem_unregister_stack agree: the guard page of a stack is made accessible again (ABTU_mprotect(.., FALSE)) for exactly the stack_guard_kind values for which it was protected -- memory handed back to the user or to free() must not keep a read-only page"
 RULES_DOC["R7"] = "when a local memory pool overflows, the buckets it keeps are all moved down: the shift loop runs to the length of the bucket array (a bucket returned to the global pool does not stay referenced locally)"
 RULES_DOC.update({
@@ -906,7 +909,44 @@ def rule_R8(P, rep):
            "protected for %s, unprotected for %s" % (show(a), show(b)), loc=H, site="stack-guard/kinds")
 
 
+def rule_R9(P, rep):
+    """The element count written into a bucket header is the number of blocks linked into that bucket: where a bucket is
+    being carved block by block, the count stored is the running counter -- or a value the path has just compared equal
+    to it."""
+    from abtverif import ctrldep
+    if not P.fns("ABTI_mem_pool_take_bucket"):
+        rep.skip("R9", "no memory pool in this configuration")
+        return
+    F = P.fn("ABTI_mem_pool_take_bucket", "src/mem/mem_pool.c")
+    counters = [v for v in sorted(set(x["n"] for nd in F.nodes if nd and nd.get("k") == "decl" for x in nd["vars"]))
+                if None in F.var_defs(v) and any(d is not None and F.nodes[F.strip(d)].get("cv") == 0 for d in F.var_defs(v))]
+    n = 0
+    for _b, i, lh, rh in F.stores():
+        fo = F.field_of(lh)
+        if rh is None or not fo or fo[1] != "num_headers":
+            continue
+        conds = ctrldep.conditions(F, i)
+        scope = [c for c in counters if any(re.search(r"\b%s\b" % re.escape(c), lab) for lab, _v, _a in conds)]
+        if not scope:
+            continue            # a complete bucket taken from the shared list: nothing is being counted here
+        n += 1
+        val = canon.expr(F, rh, 0)
+        full = canon.expr(F, rh)
+        ok = val in scope
+        if not ok:
+            for c in scope:
+                for lab, v, _a in conds:
+                    if v is True and lab in ("%s == %s" % (full, c), "%s == %s" % (c, full)):
+                        ok = True
+        rep.ob("R9", "ABTI_mem_pool_take_bucket labels the bucket it carved with the number of blocks it holds (`%s`)" % val, ok,
+               "the header count is set to `%s` although the path counted %s blocks and has not found the two equal: the partial "
+               "bucket claims more elements than its list holds" % (val, "/".join(scope)), loc=F.loc(i),
+               site="take_bucket/count/%s" % val)
+    rep.need(n >= 2, "ABTI_mem_pool_take_bucket: only %d counted bucket labels (counters %s)" % (n, counters))
+
+
 def run(P, rep, tier):
+    common.rule_X9(P, rep, fields=[('ABTI_sync_lifo', 'p_top'), ('ABTI_mem_pool_global_pool', 'p_mem_page_empty')])
     common.rule_X7(P, rep, records=('ABTI_thread_attr',))
     common.rule_X4(P, rep)
     common.run_shared(P, rep, which=("X1", "X2"))
@@ -919,3 +959,6 @@ def run(P, rep, tier):
     rule_R6(P, rep)
     rule_R7(P, rep)
     rule_R8(P, rep)
+    rule_R9(P, rep)
+    from . import C11
+    common.borrow(rep, P, C11.rule_R6, "R10")
